@@ -16,6 +16,7 @@ package main
 
 import (
 	"go/ast"
+	"go/token"
 	"go/types"
 )
 
@@ -218,6 +219,52 @@ func ruleMergedName(p *Prog, r *Res, rule string) {
 		}
 		n++
 		fl := flowOfExpr(c.Args[0], 6)
+		// which input: every element of the reader list that is read anywhere in Merge for the name is the last one
+		youngest := true
+		var other ast.Node
+		ast.Inspect(merge.Body(), func(y ast.Node) bool {
+			call, ok := y.(*ast.CallExpr)
+			if !ok {
+				return true
+			}
+			fn := p.Callee(merge.Pkg, call)
+			if fn == nil {
+				return true
+			}
+			h := p.FnOfObj(fn)
+			if h == nil || h.Pkg != merge.Pkg || h == newWriter {
+				return true
+			}
+			// a naming helper: a package function with a string result that receives an element of the list
+			sig, _ := fn.Type().(*types.Signature)
+			if sig == nil || sig.Results().Len() != 1 || types.TypeString(sig.Results().At(0).Type(), nil) != "string" {
+				return true
+			}
+			for _, a := range call.Args {
+				ix, ok := ast.Unparen(a).(*ast.IndexExpr)
+				if !ok || identObj(info, ix.X) != param {
+					continue
+				}
+				be, ok := ast.Unparen(ix.Index).(*ast.BinaryExpr)
+				isLast := false
+				if ok && be.Op == token.SUB {
+					if lc, ok := ast.Unparen(be.X).(*ast.CallExpr); ok && isBuiltin(info, lc, "len") && len(lc.Args) == 1 && identObj(info, lc.Args[0]) == param {
+						if k, ok := constInt(info, be.Y); ok && k == 1 {
+							isLast = true
+						}
+					}
+				}
+				if !isLast {
+					youngest, other = false, ix
+				}
+			}
+			return true
+		})
+		if !youngest {
+			r.Bad(rule, "index.Merge names its output after the youngest input", p.Pos(other), "the name is made from "+exprString(p.Fset, other)+", not from the last (youngest) element of the merged list: an input that is still on disk at the next start — a view held it when the process ended — then sorts behind the merged index and supersedes it with old versions of its streams")
+		} else {
+			r.Ok(rule, "index.Merge names its output after the youngest input", p.Pos(c), "the element of the reader list the name is made from is the last one")
+		}
 		key := "index.Merge names its output " + relLine(p, merge, c)
 		switch {
 		case fl.fromClock:
